@@ -213,6 +213,8 @@ structure Frame where
   via : Via := .entry
   safeTarget : Bool := false
   requested : CallFlags := CallFlags.all
+  /-- the hash of the contract the context runs (none: entry script / dynamic script) -/
+  hash : Option Nat := none
 deriving DecidableEq, Repr
 
 /-- constants of the call path, regenerated from the source (see `Params.real`). -/
@@ -234,15 +236,18 @@ inductive Instr where
   /-- a system call or a native method body that does not start a call -/
   | prim (p : Prim)
   /-- System.Contract.Call (`viaToken = false`, `p` = its table entry, requested flags from the stack) or CALLT
-  (`viaToken = true`, `p` = LoadToken's literal check, requested flags from the NEF method token); callee; and what
-  `ic.GetContract(<executing script hash>)` answers at that moment (`none`: not found — consulted only before
-  Domovoi; it differs from the context's manifest when the contract was updated or destroyed earlier in the same
-  execution) -/
-  | call (p : Prim) (viaToken : Bool) (requested : CallFlags) (t : Target) (stored : Option Manifest := none)
+  (`viaToken = true`, `p` = LoadToken's literal check, requested flags from the NEF method token); callee. What `ic.GetContract(<executing script hash>)` answers at that moment — consulted only
+  before Domovoi — is looked up in the state's `storage`, which `update` / `destroy` change -/
+  | call (p : Prim) (viaToken : Bool) (requested : CallFlags) (t : Target)
   /-- System.Runtime.LoadScript (`p` = its table entry) -/
   | loadScript (p : Prim) (requested : CallFlags)
   /-- a native method `p` calling a contract through contract.CallFromNative -/
   | nativeCall (p : Prim) (t : Target)
+  /-- ContractManagement.update executed in the current (native) context for its CALLER: the caller's stored manifest
+  becomes `m` (management.go updateWithData: `ic.VM.GetCallingScriptHash()`); the executing contexts keep theirs -/
+  | update (m : Manifest)
+  /-- ContractManagement.destroy for the caller of the current context: nothing is stored for it any more -/
+  | destroy
   /-- the current context returns -/
   | ret
 deriving Repr
@@ -250,9 +255,11 @@ deriving Repr
 /-- the primitive whose flag check guards the instruction. -/
 def Instr.prim? : Instr → Option Prim
   | .prim p => some p
-  | .call p _ _ _ _ => some p
+  | .call p _ _ _ => some p
   | .loadScript p _ => some p
   | .nativeCall p _ => some p
+  | .update _ => Option.none
+  | .destroy => Option.none
   | .ret => Option.none
 
 inductive EffKind where
@@ -276,12 +283,18 @@ structure State where
   events : List Event
   /-- FAULT or finished: nothing executes any more -/
   halted : Bool
+  /-- ContractManagement's storage: contract hash ↦ manifest (first entry wins) -/
+  storage : List (Nat × Manifest) := []
 deriving Repr
 
 /-- the entry context of an execution (or any context the statements start from). -/
 def Frame.entry (flags : CallFlags) (manifest : Option Manifest) : Frame := { flags := flags, manifest := manifest, viaSafe := false }
 
-def State.init (f : Frame) : State := ⟨[f], [], false⟩
+def State.init (f : Frame) (storage : List (Nat × Manifest) := []) : State := ⟨[f], [], false, storage⟩
+
+/-- `ic.GetContract(h)` on the state's storage. -/
+def lookupStored (storage : List (Nat × Manifest)) (h : Option Nat) : Option Manifest :=
+  h.bind fun h => (storage.find? (fun e => e.1 == h)).map (·.2)
 
 def halt (s : State) : State := { s with halted := true }
 
@@ -320,21 +333,36 @@ def step (P : Params) (s : State) (i : Instr) : State :=
     match i with
     | .prim p =>
       if cur.flags.has p.req then { s with events := primEvents p s.stack ++ s.events } else halt s
-    | .call p viaToken requested t stored =>
+    | .call p viaToken requested t =>
+      let stored := lookupStored s.storage cur.hash
       if cur.flags.has p.req && p.eff.call && permitted P cur t stored then
-        let child : Frame := ⟨childFlags P viaToken cur.flags requested t.safe, some t.manifest, t.safe, if viaToken then .token else .call, t.safe, requested⟩
+        let child : Frame := ⟨childFlags P viaToken cur.flags requested t.safe, some t.manifest, t.safe, if viaToken then .token else .call, t.safe, requested, some t.hash⟩
         { s with stack := child :: s.stack, events := ⟨.call, s.stack, some t, consulted P cur t stored⟩ :: s.events }
       else halt s
     | .loadScript p requested =>
       if cur.flags.has p.req && p.eff.call then
-        let child : Frame := ⟨(cur.flags.inter P.loadScriptMask).inter requested, none, false, .script, false, requested⟩
+        let child : Frame := ⟨(cur.flags.inter P.loadScriptMask).inter requested, none, false, .script, false, requested, none⟩
         { s with stack := child :: s.stack, events := ⟨.call, s.stack, none, none⟩ :: s.events }
       else halt s
     | .nativeCall p t =>
       if cur.flags.has p.req && p.eff.call then
-        let child : Frame := ⟨cur.flags.inter P.fromNative, some t.manifest, false, .native, t.safe, P.fromNative⟩
+        let child : Frame := ⟨cur.flags.inter P.fromNative, some t.manifest, false, .native, t.safe, P.fromNative, some t.hash⟩
         { s with stack := child :: s.stack, events := primEvents p s.stack ++ (⟨.call, s.stack, none, none⟩ :: s.events) }
       else halt s
+    | .update m =>
+      match rest with
+      | caller :: _ =>
+        match caller.hash with
+        | some h => { s with storage := (h, m) :: s.storage.filter (fun e => e.1 != h) }
+        | none => s
+      | [] => s
+    | .destroy =>
+      match rest with
+      | caller :: _ =>
+        match caller.hash with
+        | some h => { s with storage := s.storage.filter (fun e => e.1 != h) }
+        | none => s
+      | [] => s
     | .ret =>
       match rest with
       | [] => { s with stack := [], halted := true }
